@@ -55,7 +55,7 @@ def gen_cases(rng, tier):
     return cases, {"random": n, "foreign archives read (non-FF padding, trailing bytes, flips)": nr, "fixed": 3}
 
 
-VARIANTS = [("rel", "", False), ("rel-verbose", "", True), ("dotted", "d.ot/x.y/", False), ("abs", "ABS", True), ("again", "", False)]
+VARIANTS = [("rel", "", False), ("rel-verbose", "", True), ("dotted", "d.ot/x.y/", False), ("abs", "ABS", True), ("again", "", False), ("elsewhere", "", False)]
 
 
 def run_read_case(case, ctx):
@@ -144,6 +144,15 @@ def run_case(case, ctx):
                 args.append(arg)
                 fs.append([text_points(rp), data])
             arch = f"out_{vname}{ext}"
+            if vname == "elsewhere":
+                # the archive in another directory, which holds files named like the (bare) sources but with other bytes: they are not sources
+                arch = "arc.d/" + arch
+                os.makedirs(os.path.join(cd.cwd, "arc.d"), exist_ok=True)
+                for p, c in list(src_bytes.items()):
+                    if os.path.dirname(os.path.relpath(p, cd.cwd)) == "":
+                        q = os.path.join(cd.cwd, "arc.d", os.path.basename(p))
+                        with open(q, "wb") as f:
+                            f.write(b"decoy " + c[::-1])
             if case["old"] is not None and vname != "rel":
                 # the reference variant writes to an absent target; the others over arbitrary old bytes of various lengths
                 k = [v[0] for v in VARIANTS].index(vname)
